@@ -14,7 +14,7 @@ RULE = ('operand pairs over linear table units (any admissible prefix), #system 
         'case; distinct by (op, u, v, exponent form, operand kinds)')
 SHARDS = {'quick': 16, 'thorough': 16}
 MIN_NONTRIVIAL = {'quick': 5000, 'thorough': 150000}
-REQUIRED_CLASSES = ['numpy-function-form', 'numpy-function-form:quantity-first', 'operands-with-uncertainty', 'number-type:py', 'number-type:np.float64', 'number-type:np.int', 'number-type:ndarray', 'add', 'sub', 'mul', 'div', 'neg', 'pow-int', 'pow-pair', 'pow-float', 'pow-float-noninteger', 'reflected-number-left',
+REQUIRED_CLASSES = ['pow:fraction-object', 'pow:numpy-root-function', 'numpy-function-form', 'numpy-function-form:quantity-first', 'operands-with-uncertainty', 'number-type:py', 'number-type:np.float64', 'number-type:np.int', 'number-type:ndarray', 'add', 'sub', 'mul', 'div', 'neg', 'pow-int', 'pow-pair', 'pow-float', 'pow-float-noninteger', 'reflected-number-left',
                     'number-right', 'array', 'scalar', 'different-units-same-dimension', 'total-cancellation', 'partial-cancellation',
                     'refuse-different-dimension', 'refuse-reciprocal-dimension', 'refuse-number-plus-dimensional', 'compound-operand', 'sum-of-number-and-dimensionless-unit', 'both-operands-one-object', 'chain', 'chain:root-of-square', 'chain:product-of-halves', 'chain:np.sqrt-of-square']
 REQUIRED_MONITORS = ['base_value_compares', 'dimension_compares', 'unit_exponent_compares', 'refusals_demanded']
@@ -158,7 +158,7 @@ def cases(rng, tier, shard, nshards, ctx):
                 d_ = rng.choice([1, 2, 3, 4])
                 n_ = rng.choice([1, -1, 2, 3, -3, 5])
             yield dict(op='pow', u=gen_unit(rng, ctx, rng.choice([1, 1, 2])), v=None, kind=form, n=n_, d=d_, xa=pick(rng, positive=(d_ != 1)),
-                       xb=0, arr=arr, side=rng.choice(['operator', 'operator', 'np.power']) if form != 'pair' else 'operator')
+                       xb=0, arr=arr, side=rng.choice(['operator', 'operator', 'np.power']) if form != 'pair' else rng.choice(['operator', 'operator', 'fraction-object', 'root-function']))
 
 
 def srepr(q):
@@ -305,6 +305,15 @@ def _run(case, ctx):
             e = case['n'] if case['kind'] == 'int' else ((case['n'], case['d']) if case['kind'] == 'pair' else case['n'] / case['d'])
             if case['side'] == 'np.power':
                 return np.power(a, e)
+            if case['side'] == 'fraction-object':
+                # the exponent handed over as the library's own Fraction object
+                from scinumtools.units import Fraction
+                classes.append('pow:fraction-object')
+                return a ** Fraction(case['n'], case['d'])
+            if case['side'] == 'root-function' and (case['n'], case['d']) in ((1, 2), (1, 3)):
+                # the same power in NumPy's root functions
+                classes.append('pow:numpy-root-function')
+                return np.sqrt(a) if case['d'] == 2 else np.cbrt(a)
             return a ** e
         o = b
         if number_b:
